@@ -194,6 +194,54 @@ static void streamWrite(Rng& r, long n, Out& out) {
     }
 }
 
+// ONE writer object writes a sequence of geometries (with different precision models), its settings changed only partly
+// between the writes: every output must be what a fresh writer with the same settings gives (and what the stateless model gives)
+static void applyCfg(GEOSWKTWriter* w, const WCfg& c, int mask) {
+    if (mask & 1) GEOSWKTWriter_setTrim_r(H, w, (char) c.trim);
+    if (mask & 2) GEOSWKTWriter_setRoundingPrecision_r(H, w, c.prec);
+    if (mask & 4) GEOSWKTWriter_setOutputDimension_r(H, w, c.dim);
+    if (mask & 8) GEOSWKTWriter_setOld3D_r(H, w, c.old3d);
+}
+
+static void streamWriteSeq(Rng& r, long n, Out& out) {
+    static const double SCALES[] = {0.001, 0.01, 0.1, 0.5, 1.0, 3.0, 10.0, 100.0, 1000.0, 1e6, 1e9, 123.456};
+    for (long i = 0; i < n; i++) {
+        int len = r.range(2, 4);
+        GEOSWKTWriter* w = GEOSWKTWriter_create_r(H);
+        WCfg cur{1, -1, 4, 0};                       // state of a new writer (checked by the first element when mask == 0)
+        std::string cas = std::to_string(len), exp;
+        bool ok = true;
+        for (int k = 0; k < len && ok; k++) {
+            GTreeGen gen(r, genTreeCfg(r, out), &out);
+            std::string line = gen.geom();
+            std::unique_ptr<PrecisionModel> pm; double scale = 0;
+            if (r.chance(55)) { scale = SCALES[r.below(sizeof SCALES / sizeof *SCALES)]; pm.reset(new PrecisionModel(scale)); out.count("seq_fixed_pm"); }
+            else { pm.reset(new PrecisionModel()); out.count("seq_floating_pm"); }
+            GeometryFactory::Ptr gf = GeometryFactory::create(pm.get(), 0);
+            std::unique_ptr<Geometry> g;
+            try { g = buildGeom(line, gf.get()); } catch (std::exception&) { out.count("gen_rejected_by_factory"); ok = false; break; }
+            line = dumpGeom(g.get());
+            WCfg nw = genCfg(r);
+            if (r.chance(60)) nw.prec = -1;           // the precision model decides
+            int mask = k == 0 && r.chance(30) ? 0 : (int) r.below(16);
+            if (mask & 1) cur.trim = nw.trim;
+            if (mask & 2) cur.prec = nw.prec;
+            if (mask & 4) cur.dim = nw.dim;
+            if (mask & 8) cur.old3d = nw.old3d;
+            applyCfg(w, cur, mask);
+            char* s = GEOSWKTWriter_write_r(H, w, cg(g.get()));
+            std::string reused = s ? s : "WRITE-FAILED"; if (s) GEOSFree_r(H, s);
+            std::string fresh = geosWrite(cur, g.get());
+            int msd = g->getPrecisionModel()->getMaximumSignificantDigits();
+            out.count(cur.prec == -1 ? "seq_prec_from_pm" : "seq_prec_explicit");
+            cas += " | " + cfgStr(cur) + " " + std::to_string(msd) + " " + hex(scale) + " " + std::to_string(mask) + " " + line;
+            exp += std::string(k ? " ;; " : "") + "R:" + reused + " F:" + fresh;
+        }
+        GEOSWKTWriter_destroy_r(H, w);
+        if (ok) out.emit(cas, exp);
+    }
+}
+
 static void streamRt(Rng& r, long n, Out& out) {
     for (long i = 0; i < n; i++) {
         std::string line; std::unique_ptr<Geometry> g;
@@ -340,6 +388,28 @@ static std::string replayLine(const std::string& stream, const std::string& line
     try {
         if (stream == "fmt") { std::istringstream is(line); std::string b; int p, t; is >> b >> p >> t; return fmtExpect(frombits(std::stoull(b, nullptr, 16)), p, t); }
         if (stream == "wkt-read") return geosRead(line);
+        if (stream == "wkt-write-seq") {
+            // `<n> | <trim> <prec> <dim> <old3d> <msd> <scale bits, 0 = floating> <mask of settings re-set> <gtree> | …`
+            std::vector<std::string> steps; size_t p0 = 0;
+            while (true) { size_t p1 = line.find(" | ", p0); steps.push_back(line.substr(p0, p1 == std::string::npos ? p1 : p1 - p0)); if (p1 == std::string::npos) break; p0 = p1 + 3; }
+            GEOSWKTWriter* w = GEOSWKTWriter_create_r(H);
+            std::string exp;
+            for (size_t k = 1; k < steps.size(); k++) {
+                std::istringstream is(steps[k]); WCfg c; int msd, mask; std::string sc;
+                if (!(is >> c.trim >> c.prec >> c.dim >> c.old3d >> msd >> sc >> mask)) { GEOSWKTWriter_destroy_r(H, w); return "bad-line"; }
+                std::string gt; std::getline(is, gt);
+                double scale = frombits(std::stoull(sc, nullptr, 16));
+                std::unique_ptr<PrecisionModel> pm(scale == 0 ? new PrecisionModel() : new PrecisionModel(scale));
+                GeometryFactory::Ptr gf = GeometryFactory::create(pm.get(), 0);
+                std::unique_ptr<Geometry> g = buildGeom(gt, gf.get());
+                applyCfg(w, c, mask);
+                char* s = GEOSWKTWriter_write_r(H, w, cg(g.get()));
+                std::string reused = s ? s : "WRITE-FAILED"; if (s) GEOSFree_r(H, s);
+                exp += std::string(k > 1 ? " ;; " : "") + "R:" + reused + " F:" + geosWrite(c, g.get());
+            }
+            GEOSWKTWriter_destroy_r(H, w);
+            return exp;
+        }
         if (stream == "wkt-write" || stream == "wkt-rt") {
             WCfg c; std::string rest; if (!parseCfgLine(line, c, rest)) return "bad-line";
             auto g = buildGeom(rest, GF.get());
@@ -369,6 +439,7 @@ int main(int argc, char** argv) {
         Out out(argv[4]); Rng r(seed);
         if (stream == "fmt") streamFmt(r, n, out);
         else if (stream == "wkt-write") streamWrite(r, n, out);
+        else if (stream == "wkt-write-seq") streamWriteSeq(r, n, out);
         else if (stream == "wkt-read") streamRead(r, n, out);
         else if (stream == "wkt-rt") streamRt(r, n, out);
         else if (stream == "geojson") streamGeojson(r, n, out);
